@@ -21,6 +21,10 @@ def corpus(fmt, r, n):
     """n valid ASCII documents of the format (bytes)."""
     from harness import docs
     out = [_cli.serialise(fmt, _cli.DATA_A, "A")]
+    if fmt == "yaml":
+        # streams of several documents, the first of them null / empty: an error in a LATER document is an error of the file
+        out.append(b"---\n---\nfoo: [1, 2]\nbar: {a: b}\n")
+        out.append(b"~\n---\nk: [1, {a: 'x y'}]\n---\n- \"q\"\n")
     if fmt in ("json", "json5", "yaml"):
         # one document with 2-, 3- and 4-byte characters: its truncations inside a character are not valid UTF-8
         out.append('{"k\u00e9": "caf\u00e9 \u65e5\u672c", "x": [1, "\U0001F600"]}'.encode("utf-8"))
@@ -84,7 +88,7 @@ def corruptions(fmt, doc: bytes, r, budget):
 def run():
     chk = Check("C20", "fault_enumeration")
     t = tier()
-    ndocs, budget = (4, 260) if t == "quick" else (25, 0)
+    ndocs, budget = (6, 200) if t == "quick" else (27, 0)
     r = rng("c20")
     mats = _cli.Materials()
     jobs = []
